@@ -169,7 +169,7 @@ def _verify(item):
         from engine.vcg import heap_native as HN
         plain_wf0 = [c for _, c in H.WF(h0)]
         arg_consts = [self_] + [info[k] for k in info]
-        NDOM = 9
+        NDOM = 8
 
         def sample(extra):
             m = HN.find_model(plain_wf0 + pre + extra, arg_consts, h0, N=NDOM, timeout_ms=max(20000, TIMEOUT_MS // 2))
@@ -184,6 +184,8 @@ def _verify(item):
         if 'stream' in info:
             variants += [[sel(getattr(h0, side), info['stream']) != 0, sel(getattr(h0, side), info['stream']) != sel(getattr(h0, side), self_)],
                          [sel(h0.kind, info['stream']) == H.MISSING]]
+        if os.environ.get('VERIF_TIER', 'quick') != 'thorough' and len(variants) > 4:
+            variants = [variants[0], variants[3]] + variants[-3:-1]
         out['cross_checks'] = []
         for extra_ in variants:
             try:
@@ -192,8 +194,10 @@ def _verify(item):
                 nat = native_run(cls, meth, params, smp[0], smp[1])
                 out['cross_checks'].append({'inputs': smp[1], 'objects': len(smp[0]), **nat})
                 ok_exc = nat['exception'] in (None, 'IndexError', 'RuntimeError')
-                if not nat['wf_pre'] and all_proved and (nat['wf_post'] or nat['effects_failed'] or not ok_exc):
-                    out['obligations'].append(('cross-check: native run of a sampled well-formed pre-state keeps WF', 'sat'))
+                if not nat['wf_pre'] and (nat['wf_post'] or nat['effects_failed'] or not ok_exc):
+                    # a well-formed pre-state inside the preconditions whose native run breaks the contract: a replayed failing input
+                    if all_proved:
+                        out['obligations'].append(('cross-check: native run of a sampled well-formed pre-state keeps WF', 'sat'))
                     out['replays'] = out.get('replays', []) + [{'clause': 'cross-check', 'heap': smp[0], 'inputs': smp[1], 'native': nat}]
                     break
             except Exception as e:
@@ -202,11 +206,15 @@ def _verify(item):
         for nm, (pc_, goal_) in zip(names_failing, failing):
             try:
                 smp = sample(pc_ + [z3.Not(goal_)])
-                if smp is None: continue
+                if smp is None:
+                    out.setdefault('replay_errors', []).append(f'{nm}: no finite model within the domain/timeout')
+                    continue
                 nat = native_run(cls, meth, params, smp[0], smp[1])
                 broke = bool(nat['wf_post'] or nat['effects_failed'] or nat['exception'] not in (None, 'IndexError', 'RuntimeError'))
                 if not nat['wf_pre'] and broke:
                     out['replays'] = out.get('replays', []) + [{'clause': nm, 'heap': smp[0], 'inputs': smp[1], 'native': nat}]
+                else:
+                    out.setdefault('replay_errors', []).append(f'{nm}: finite model found but the native run did not break WF: {nat}')
             except Exception as e:
                 out.setdefault('replay_errors', []).append(f'{nm}: {type(e).__name__}: {e}')
         for oname, pc, cond in ex.side_obligations:
@@ -309,16 +317,23 @@ def run(prop, tier, jobs, seed):
             if k is not None:
                 print(f"KNOWN-FINDING: property={PROP} {k['what']} [{k['id']}; {ob}]"); continue
             n_ob += 1
-            if v == 'unknown':
-                print(f'UNDECIDED {ob}')
-                if status == 0: status = 2
-                continue
             rdir = os.path.join(VERIF, 'replays', PROP); os.makedirs(rdir, exist_ok=True)
             path = os.path.join(rdir, ('U__' + r['name'] + '__' + n).replace('/', '_').replace(' ', '_').replace(':', '')[:150] + '.json')
+            reps = r.get('replays') or []
+            rep = next((x for x in reps if x['clause'] == n), reps[0] if reps else None)
             json.dump({'property': PROP, 'obligation': ob, 'function': r['name'], 'mode': 'U', 'solver_verdict': v,
-                       'note': 'heap counter-models are not concretised; the bounded exploration (mode B groups of C18) replays such failures on the real code'},
-                      open(path, 'w'), indent=1)
-            if baseline.get(ob) == 'unsat':
+                       'failing_input': rep, 'replay_notes': r.get('replay_errors'),
+                       'how_to_replay': 'heap = objects (kind 1 unit, 2 stream, 3 placeholder, 4 inlets, 5 outlets) with their fields; engine.vcg.heap_native.build(heap) '
+                                        'creates the real thermosteam.network objects, then the method is called with `inputs`'},
+                      open(path, 'w'), indent=1, default=str)
+            if rep is not None:
+                print(f'VIOLATION property={PROP} replay={path}')
+                print(f"  obligation {ob}: native run on a well-formed heap of {len(rep['heap'])} objects breaks {rep['native'].get('wf_post')} {rep['native'].get('effects_failed')} {rep['native'].get('exception') or ''}")
+                status = 1; viol += 1
+            elif v == 'unknown':
+                print(f'UNDECIDED {ob}')
+                if status == 0: status = 2
+            elif baseline.get(ob) == 'unsat':
                 print(f'VIOLATION property={PROP} replay={path} no-failing-input-found'); status = 1; viol += 1
             else:
                 print(f'UNDECIDED {ob} (refuted by the solver; not in the baseline of discharged obligations)')
